@@ -270,15 +270,20 @@ def homogenized(net, items, bval, active, m0):
         C = np.array(cl.cov["C"], dtype=float)
         if np.any(C - np.diag(np.diag(C))):
             corr.add(ci)
-        if any(bval[it.n][0] is None for it in its):
-            continue
+        bb = []
+        for it in its:
+            b0 = bval[it.n][0]
+            if b0 is None and it.kind == "direction":
+                # no approximate orientation from the hook: the circle zero of the generator serves for naming
+                b0 = wrap200(it.val - netgen.model_value(net, cl, it.obs, approx_points(net))) * 1e4
+            bb.append(b0)
         idx = [it.oi for it in its]
         Q = C[np.ix_(idx, idx)] / (m0 * m0)
         try:
             Lc = np.linalg.cholesky(Q)
         except np.linalg.LinAlgError:
             continue
-        v = np.linalg.solve(Lc, np.array([bval[it.n][0] for it in its]))
+        v = np.linalg.solve(Lc, np.array(bb))
         for it, val in zip(its, v):
             y[it.n] = float(val)
     return y, corr
@@ -371,6 +376,9 @@ def determinacy(net, items, active, P, all_cols=None):
 
 # ---------------------------------------------------------------------------- case generation
 
+NEEDS_FIXED = ("weak-intersection", "floating-pair")
+
+
 def gen_case(seed, i):
     rng = np.random.default_rng([seed, i, 1414])
     dim = (2, 3, 1, 2, 3, 2)[i % 6] if rng.uniform() < 0.8 else int(rng.choice([1, 2, 3]))
@@ -389,7 +397,15 @@ def gen_case(seed, i):
         feats.append("vectors")
     if dim >= 2 and rng.uniform() < 0.25:
         feats.append("coords")
+    # defects: the first one rotates through the menu with the case number, further ones are random
+    menu = defect_menu(dim)
+    ndef = int(rng.choice([0, 1, 1, 2, 3])) if (i % 5) else 1
+    chosen = []
+    for k in range(ndef):
+        chosen.append(menu[(i // 6) % len(menu)] if k == 0 else str(rng.choice(menu)))
     datum = str(rng.choice(["fixed", "fixed", "free", "mixed"]))
+    if chosen and (chosen[0] in NEEDS_FIXED or (dim == 1 and chosen[0] == "passive-cluster")):
+        datum = "fixed"
     net = netgen.gen_net(rng, dim=dim, datum=datum, noise=False, features=tuple(feats))
     tol = TOLS[(i // 2) % 3] if rng.uniform() < 0.8 else float(rng.choice(TOLS))
     net.params["tol_abs"] = tol
@@ -408,13 +424,6 @@ def gen_case(seed, i):
         info["approx"] = "exact"
     netgen.add_noise(rng, net, scale=float(rng.choice([0.3, 1.0])))
     tame_noise(net, tol)
-    # defects
-    menu = defect_menu(dim)
-    ndef = int(rng.choice([0, 1, 1, 2, 3]))
-    first = menu[(i // 6) % len(menu)]
-    chosen = []
-    for k in range(ndef):
-        chosen.append(first if k == 0 else str(rng.choice(menu)))
     for k, name in enumerate(chosen):
         INJECT[name](rng, net, info, "D%d" % (k + 1))
     # blunders
@@ -897,7 +906,9 @@ class Seen:
             k = e.get("kind")
             if k == "rm_point":
                 self.rm_points.append((e["id"], int(e["code"])))
-                if not self.abs and len(self.rev) < 2 + len([1 for _, c in self.rm_points if c == 3]):
+                if not self.abs:
+                    # (when no gross term is removed at all, points removed later on are counted as well: the
+                    # observations touching them are then simply not judged)
                     self.rm_points_pre.append((e["id"], int(e["code"])))
             elif k == "rm_obs_abs_term":
                 self.abs.append(e)
@@ -1109,6 +1120,8 @@ def evaluate(ck, net, info, items, alg, g, txt, wit):
         hook_abs_items.add(best.n)
         e["_item"] = best.n
     yh, corr = homogenized(net, items, bval, {it.n for it in items if it.n not in pre}, net.params["sigma_apr"])
+    ungiven = {pid for pid, q in net.points.items()
+               if (q.xy != "none" and not q.give_xy) or (q.z != "none" and not q.give_z)}
     n_judged = 0
     flagged_raw = False          # would the documented rule (or its left-arm variant) find any gross term?
     any_hom = False              # would the rule applied to the homogenised terms find any?
@@ -1121,15 +1134,19 @@ def evaluate(ck, net, info, items, alg, g, txt, wit):
         if b is None:
             ck.count("rule: direction without known approximate orientation (not judged)")
             continue
-        L = (m / abs(b * GON / 1e4) / 1000.0) if (it.kind in ANGULAR and b != 0) else None
+        if any(p in ungiven for p in it.points()):
+            ck.count("rule: observation to a point whose approximate coordinates gama computed itself (not judged)")
+            continue
         # alternative decision rules that known defects of gama would produce
         y = yh.get(it.n)
-        Lleft = hdist(P[it.frm], P[it.to]) if it.kind == "angle" else None
-        m_left = abs(b) / 1e4 * GON * Lleft * 1000.0 if Lleft is not None else m
-        m_hom = abs(y) / 1e4 * GON * (m / (abs(b) / 1e4 * GON) if b != 0 else 0.0) if (y is not None and it.kind in ANGULAR) else m
-        m_hom_left = abs(y) / 1e4 * GON * Lleft * 1000.0 if (y is not None and Lleft is not None) else m_hom
-        if it.kind in ANGULAR and y is None:
-            m_hom = m_hom_left = None
+        Lspec = sight_lengths(net, it, P)[0]
+        Lleft = hdist(P[it.frm], P[it.to]) if it.kind == "angle" else Lspec
+        if it.kind in ANGULAR:
+            m_left = abs(b) / 1e4 * GON * Lleft * 1000.0
+            m_hom = abs(y) / 1e4 * GON * Lspec * 1000.0 if y is not None else None
+            m_hom_left = abs(y) / 1e4 * GON * Lleft * 1000.0 if y is not None else None
+        else:
+            m_left = m_hom = m_hom_left = m
         flagged_raw = flagged_raw or m_left > tol
         any_hom = any_hom or (m_hom_left is not None and m_hom_left > tol)
         e = next((e for e in S.abs if e.get("_item") == it.n), None)
@@ -1161,10 +1178,13 @@ def evaluate(ck, net, info, items, alg, g, txt, wit):
         n_judged += 1
         should = m > tol
         if planted:
-            ck.cls(("rule", info["kind"], it.kind, "tol=%g" % tol, planted["side"], alg))
+            ck.cls(("rule", it.kind, "tol=%g" % tol, planted["side"], alg))
+            ck.count("rule/planted/%s/%s" % (it.kind, planted["side"]))
+            ck.count("rule/planted/tol=%g/%s" % (tol, planted["side"]))
             ck.ratio("planted blunder: |m/tol - factor| / 1e-9", abs(m / tol - planted["factor"]), 1e-9)
         elif should:
-            ck.cls(("rule", info["kind"], it.kind, "tol=%g" % tol, "natural-above", alg))
+            ck.cls(("rule", it.kind, "tol=%g" % tol, "natural-above", alg))
+            ck.count("rule/natural-above/%s" % it.kind)
         if should != excluded:
             # is the decision the one a known defect produces?  (homogenised right-hand side; left arm of angles)
             side = "kept-above" if should else "excluded-below"
@@ -1216,7 +1236,8 @@ def evaluate(ck, net, info, items, alg, g, txt, wit):
             want = info["exp_points"].get((pid, c))
             if want is None:
                 continue
-            ck.cls(("point", info["kind"], want, RM_NAME[code], alg))
+            ck.cls(("point", "%dd" % info["dim"], want, RM_NAME[code], alg))
+            ck.count("point/expected %s/removed as %s" % (want, RM_NAME[code]))
             if want != "any" and (want == "missing") != (word == "missing"):
                 ck.violation("reason:point:%s:%s" % (RM_NAME[code], want),
                              "point %s %s: coordinates %s in the input, removed as '%s'" % (
@@ -1268,9 +1289,7 @@ def evaluate(ck, net, info, items, alg, g, txt, wit):
     hook_passive = S.passive_keys()
     exp_keys = multiset(items[n].key() for n in exp_passive)
     d1, d2 = ms_diff(hook_passive, exp_keys), ms_diff(exp_keys, hook_passive)
-    rule_bad = any(v["key"].startswith("abs-term-rule") for v in ck.violations[-50:] if v["witness"] is wit or True) \
-        and (set(hook_abs_items) != abs_rule)
-    if (d1 or d2) and not rule_bad and not silently:
+    if (d1 or d2) and not silently:
         ck.violation("exclusion-set:observations",
                      "observations made passive by gama differ from the documented rules: only gama %s, only "
                      "expected %s [%s]" % (sorted(d1.items(), key=str)[:4], sorted(d2.items(), key=str)[:4], alg), wit)
@@ -1297,12 +1316,16 @@ def evaluate(ck, net, info, items, alg, g, txt, wit):
     for idx, r in rows.items():
         ck.violation("phantom:outlying-term-listed",
                      "'Outlying absolute terms' lists row %s which was not excluded" % r, wit)
+    # the section is announced on the flag huge_abs_terms() (raw terms) while the rows and the removal come from
+    # a second evaluation: known defect when that one runs on the homogenised terms
+    why = ":homogenized-rhs" if (flagged_raw and not any_hom and not S.abs) else ""
     if bool(S.abs) != T["note"]:
-        ck.violation("phantom:outlying-terms-note" if T["note"] else "invisible:obs:abs-term-note",
+        ck.violation(("phantom:outlying-terms-note" + why) if T["note"] else "invisible:obs:abs-term-note",
                      "'Observations with outlying absolute terms removed' %s, %d observations removed" % (
                          "printed" if T["note"] else "not printed", len(S.abs)), wit)
     if T["has_outlying"] and not S.abs:
-        ck.violation("phantom:outlying-terms-section", "'Outlying absolute terms' section printed, nothing removed", wit)
+        ck.violation("phantom:outlying-terms-section" + why,
+                     "'Outlying absolute terms' section printed, nothing listed and nothing removed", wit)
     # counts
     act = [it for it in items]
     by_kind_in = multiset(it.kind for it in items)
@@ -1376,6 +1399,7 @@ def evaluate(ck, net, info, items, alg, g, txt, wit):
 
     for d in set(info["defects"]) or {"none"}:
         ck.case((info["kind"], d, "tol=%g" % tol, alg))
+        ck.count("defect/%dd/%s" % (info["dim"], d))
     return dict(points=tuple(sorted(S.rm_points)), removed=hook_removed, missing=hook_missing,
                 passive=hook_passive, abs_items=hook_abs_items, exp_passive=exp_passive,
                 silently=silently)
@@ -1513,9 +1537,9 @@ def run(tier, seed, only=None):
             ck.inconc("timeout")
             continue
         oc2 = netlevel.outcome(g2)
-        cls = ("deletion", net.kind, "+".join(sorted(set(info["defects"]))) or "blunders-only",
-               "points" if nrem else "-", "observations" if npass else "-", alg)
+        cls = ("deletion", "%dd" % info["dim"], "points" if nrem else "-", "observations" if npass else "-", alg)
         ck.case(cls)
+        ck.count("deletion runs compared")
         if oc2 != "adjusted":
             ck.violation("deletion:outcome", "input with the excluded items deleted: %s %s" % (
                 oc2, (g2.xml or {}).get("descriptions") if g2.xml else (g2.out or "")[-200:]), wit)
